@@ -35,25 +35,35 @@ class P:
             return d if re.fullmatch(r"-?\d+", d) else "0"
         return d
 
-    def mk_case(self, chosen, settings, defaults, regs):
-        """chosen: dict field -> {'env': v?, 'file': v?, 'cli': v?}"""
+    def mk_case(self, chosen, settings, defaults, regs, rng=None):
+        """chosen: dict field -> {'env': v?, 'file': v?, 'cli': v?}.  With rng: the spelling varies - an integer in the environment
+        may be zero-padded (it still spells the same decimal number), a flag is written `-flag=value` or `-flag value`, before or
+        after `-config <file>`."""
         tag = {f: t for f, t, k in settings}
         kind = {f: k for f, t, k in settings}
         flag = {f: fl for f, fl in regs}
-        env, filelines, args = {}, [], []
+        env, filelines, args, pre = {}, [], [], []
         D, E, F, C = [], [], [], []
         for f, fl in regs:
             D += [f, hx(self.default_of(f, kind[f], defaults))]
         for f, srcs in chosen.items():
             if "env" in srcs:
-                env["VFLOW_" + tag[f].upper().replace("-", "_")] = srcs["env"]; E += [f, hx(srcs["env"])]
+                spelled = srcs["env"]
+                if rng is not None and kind[f] == "int" and re.fullmatch(r"\d+", spelled) and rng.random() < 0.3:
+                    spelled = "0" * rng.choice([1, 2]) + spelled          # VFLOW_IPFIX_PORT=04739 is the decimal number 4739
+                env["VFLOW_" + tag[f].upper().replace("-", "_")] = spelled; E += [f, hx(srcs["env"])]
             if "file" in srcs:
                 v = srcs["file"]
                 filelines.append("%s: %s" % (tag[f], v if kind[f] != "string" else json.dumps(v))); F += [f, hx(srcs["file"])]
             if "cli" in srcs:
-                args.append("-%s=%s" % (flag[f], srcs["cli"])); C += [flag[f], hx(srcs["cli"])]
+                where = pre if (rng is not None and rng.random() < 0.3) else args
+                if rng is not None and kind[f] != "bool" and rng.random() < 0.5:
+                    where += ["-" + flag[f], srcs["cli"]]
+                else:
+                    where.append("-%s=%s" % (flag[f], srcs["cli"]))
+                C += [flag[f], hx(srcs["cli"])]
         line = "options D %s E %s F %s C %s" % (" ".join(D), " ".join(E), " ".join(F), " ".join(C))
-        self.cases_json[line] = {"cmd": "options", "env": env, "file": ("\n".join(filelines) + "\n") if filelines else None, "args": args}
+        self.cases_json[line] = {"cmd": "options", "env": env, "file": ("\n".join(filelines) + "\n") if filelines else None, "args": args, "pre_args": pre}
         exp = {}
         for f, fl in regs:
             s = chosen.get(f, {})
@@ -67,6 +77,10 @@ class P:
             return {"env": nd, "file": default, "cli": nd}, {"env": nd, "file": nd, "cli": default}
         if kind == "int":
             return {"env": str(1000 + 3 * i), "file": str(1001 + 3 * i), "cli": str(1002 + 3 * i)}, None
+        if i % 3 == 2:
+            # values that look like other things the option code handles: flag names, booleans, numbers, key=value
+            tricky = ["config", "verbose", "ipfix-port", "true", "false", "0", "10", "a=b", "x y", "VFLOW_IPFIX_PORT", "vflow.conf"]
+            return {"env": tricky[i % len(tricky)], "file": tricky[(i + 3) % len(tricky)], "cli": tricky[(i + 5) % len(tricky)]}, None
         return {"env": "env-%d" % i, "file": "file value %d" % i, "cli": "cli:%d" % i}, None
 
     def cases(self, tier, rng, budget):
@@ -90,7 +104,24 @@ class P:
             for f in rng.sample(keys, rng.choice([2, 3, 5, 10])):
                 vals, _ = self.values(kind[f], self.default_of(f, kind[f], defaults), rng.randrange(1000))
                 chosen[f] = {k: v for k, v in vals.items() if rng.random() < 0.5}
-            out.append(self.mk_case(chosen, settings, defaults, regs))
+            out.append(self.mk_case(chosen, settings, defaults, regs, rng))
+        # a string setting written `-flag value` BEFORE `-config <file>`, its value looking like a flag name; another setting in the file
+        skeys = [f for f in keys if kind[f] == "string"]
+        ikeys = [f for f in keys if kind[f] == "int"]
+        for i, f in enumerate(skeys):
+            for v in ("config", "verbose", "-x"):
+                other = ikeys[i % len(ikeys)]
+                line = self.mk_case({f: {"cli": v}, other: {"file": str(4000 + i)}}, settings, defaults, regs)
+                c = self.cases_json[line]
+                c["pre_args"], c["args"] = ["-" + dict(regs)[f], v], []
+                out.append(line)
+        # every setting once more with the spelling varied (zero-padded environment integers, `-flag value`, flags before -config)
+        for i, f in enumerate(keys):
+            d = self.default_of(f, kind[f], defaults)
+            vals = self.values(kind[f], d, 3 * i + 2)[0]
+            for subset in ((1, 0, 0), (0, 0, 1), (1, 1, 1), (1, 0, 1)):
+                srcs = {k: vals[k] for k, on in zip(("env", "file", "cli"), subset) if on}
+                out.append(self.mk_case({f: srcs}, settings, defaults, regs, rng))
         return out
 
     def run_impl(self, lines):
